@@ -240,6 +240,8 @@ def gen(rng, idx, tier):
                 opts["convertCubics"] = False
         case["history"] = rng.choice(["once", "once", "twice"])
         case["opts"] = opts
+        # <source> elements built in memory need not have (unique) names
+        case["source_names"] = rng.choice(["given", "given", "none", "duplicate", "some_none"])
     elif r < 0.78:
         case["kind"] = "fixture"
         if rng.random() < 0.75 or not dss:
@@ -382,6 +384,14 @@ def _run(case, bump, counters, tmp):
     elif "ds" in case:
         doc, fonts = build_designspace(case["ds"], lib)
         bump("family_runs")
+        sn = case.get("source_names", "given")
+        if sn != "given":
+            for i, sd in enumerate(doc.sources):
+                if sn == "none" or (sn == "some_none" and i % 2 == 0):
+                    sd.name = None
+                elif sn == "duplicate":
+                    sd.name = "master"
+            bump("unnamed_or_duplicate_source_names")
         if case.get("sparse_stratum"):
             bump("sparse_" + case["sparse_stratum"])
     else:
